@@ -2,91 +2,61 @@
   C03 — Worker count never changes answers.
 
   Model: `Engine.run` with `cfg.workers = n` (ILV.Model.Engine — `execute_with_config`,
-  code_generator:1261): a non-recursive head whose tree has no join / antijoin (`parSafe`) is
-  evaluated once per hash partition of *all* its inputs and the results are united; every other
-  head runs on one worker. The partitioner `hash` is a parameter: every theorem is for all `hash`
-  (the driver instantiates it with SipHash-1-3, the real `DefaultHasher`).
-  False of the faithful model: `Aggregate` is partition-"safe" for the code but does not distribute
-  (`C03_refuted`). Proved: aggregate-free non-recursive programs (`C03_partial`), via
-  `evalRules_dist` — Scan / Filter / Compute / Map / Distinct / Union distribute over any partition.
+  code_generator:1261): a non-recursive head whose tree has no join / antijoin / aggregate
+  (`parSafe`, = `contains_join` after fixes/C03-aggregate_under_partitioning.diff) is evaluated once
+  per hash partition of *all* its inputs and the results are merged; every other head — in
+  particular every self-recursive head (lib.rs:1667 dispatches those to `execute_recursive`
+  before looking at `num_workers`) — runs on one worker. The partitioner `hash` is a parameter:
+  the theorem is for all `hash` (the driver instantiates it with SipHash-1-3, the real
+  `DefaultHasher`). The merged `HashSet` has no order; the model lists it in the order of the
+  whole-relation evaluation.
 -/
 import ILV.Lemmas.Workers
 import ILV.Drv.C03
 namespace ILV.Props.C03
 open ILV ILV.DL ILV.Engine
 
-/-- full statement: for every worker count ≥ 1 and every pair of partitioners the answer is the
-    one-worker answer. -/
+/-- full statement: whenever the one-worker run answers, the run with any worker count `n ≥ 1` and
+    any partitioner gives the same outcome (answer and every accumulated relation). -/
 def C03_statement : Prop :=
-  ∀ (p : Program) (edb : DB) (n : Nat) (hash hash' : Tuple → Nat) (ord ord' : String → List Tuple → List Tuple)
-    (fuel fuel' : Nat) (An A1 : List Tuple) (accn acc1 : DB),
+  ∀ (p : Program) (edb : DB) (n : Nat) (hash hash' : Tuple → Nat) (ord : String → List Tuple → List Tuple)
+    (fuel : Nat) (A : List Tuple) (acc : DB),
     0 < n →
-    Engine.run (cfgW n) hash ord fuel p edb = .ok An accn →
-    Engine.run (cfgW 1) hash' ord' fuel' p edb = .ok A1 acc1 →
-    MemEq An A1
+    Engine.run (cfgW 1) hash' ord fuel p edb = .ok A acc →
+    Engine.run (cfgW n) hash ord fuel p edb = .ok A acc
 
-/-- `c(count<X>) <- r(X)` over two facts that fall into different partitions. -/
-def countProg : Program := [
-  { hrel := "c", hargs := [.agg .count "X"], body := [.pos ⟨"r", [.var "X"]⟩] } ]
-def twoFacts : DB := [("r", [[.i64 0], [.i64 1]])]
-/-- a partitioner separating the two facts. -/
-def parity : Tuple → Nat
-  | [.i64 n] => n.toNat
-  | _ => 0
-
-theorem C03_refuted : ¬ C03_statement := by
-  intro h
-  have h2 : Engine.run (cfgW 2) parity (fun _ ts => ts) 4 countProg twoFacts = .ok [[.i64 1]] [("c", [[.i64 1]])] := by decide
-  have h1 : Engine.run (cfgW 1) parity (fun _ ts => ts) 4 countProg twoFacts = .ok [[.i64 2]] [("c", [[.i64 2]])] := by decide
-  have := h countProg twoFacts 2 _ _ _ _ 4 4 _ _ _ _ (by decide) h2 h1
-  have := (this [.i64 1]).1 (by decide)
-  revert this; decide
-
-/-- the witness is in the class of the known finding. -/
-example : Drv.C03.aggregateUnderPartitioning (cfgW 2) countProg = true := by decide
+/-- **C03, for all programs** — recursion, negation, aggregates, joins included. Heads that are
+    partitioned distribute over every partition (`evalRulesM_dist`: Scan / Filter / Compute / Map /
+    Distinct / Union); all other heads take the very same single-worker path. -/
+theorem C03 : C03_statement :=
+  fun p edb n hash hash' ord fuel A acc hn h1 => run_workers p edb n hn hash hash' ord fuel A acc h1
 
 /-- every tuple of every relation lies in exactly one partition (any partitioner, any n > 0). -/
 theorem C03_part_cover (hash : Tuple → Nat) (n : Nat) (hn : 0 < n) (lk : String → List Tuple) (r : String) (t : Tuple) :
     t ∈ lk r ↔ ∃ w, w ∈ List.range n ∧ t ∈ partLk hash n w lk r :=
   part_cover hash n hn lk r t
 
-/-- **C03 for aggregate-free, non-recursive programs**: any worker count, any two partitioners,
-    any emission orders and fuels — same answer as one worker. -/
-theorem C03_partial (p : Program) (edb : DB) (n : Nat) (hash hash' : Tuple → Nat)
-    (ord ord' : String → List Tuple → List Tuple) (fuel fuel' : Nat) (An A1 : List Tuple) (accn acc1 : DB)
-    (hn : 0 < n) (hcf : ClauseFaithful p) (hagg : p.all (fun r => !r.hasAgg) = true)
-    (hnorec : (heads p).all (fun h => !selfRec p h) = true ∧ (execOrder p).all (heads p).contains = true)
-    (hrn : Engine.run (cfgW n) hash ord fuel p edb = .ok An accn)
-    (hr1 : Engine.run (cfgW 1) hash' ord' fuel' p edb = .ok A1 acc1) :
-    MemEq An A1 := by
-  have hagg' : ∀ r, r ∈ p → r.hasAgg = false := by
-    intro r hr; simpa using List.all_eq_true.1 hagg r hr
-  -- a relation that is not a head has no clauses, hence is not self-recursive either
-  have hnr : ∀ h, selfRec p h = false := by
-    intro h
-    by_cases hh : h ∈ heads p
-    · simpa using List.all_eq_true.1 hnorec.1 h hh
-    · unfold selfRec scansOf
-      have : clausesOf p h = [] := by
-        unfold clausesOf
-        rw [List.filter_eq_nil_iff]
-        intro r hr hc
-        exact hh (mem_heads.2 ⟨r, hr, by simpa using hc⟩)
-      rw [this]; rfl
-  exact execLoop_workers p edb hcf hagg' hnr n hn hash hash' ord ord' fuel fuel' (execOrder p) [] [] [] [] An A1 accn acc1
-    (fun _ => Or.inl ⟨rfl, rfl⟩) (MemEq.refl _) (run_loop _ _ _ _ _ _ _ _ hrn) (run_loop _ _ _ _ _ _ _ _ hr1)
+/-- the former counterexample (`c(count<X>) <- r(X)`, two facts in different partitions) now
+    counts 2 with two workers: the aggregate head is no longer partitioned. -/
+def countProg : Program := [
+  { hrel := "c", hargs := [.agg .count "X"], body := [.pos ⟨"r", [.var "X"]⟩] } ]
+def twoFacts : DB := [("r", [[.i64 0], [.i64 1]])]
+def parity : Tuple → Nat
+  | [.i64 n] => n.toNat
+  | _ => 0
 
-/-- a projection with a constant filter and a repeated variable over 5 facts, 3 workers, the real
-    partitioner: hypotheses hold, the partitioned path is taken, 2-tuple answer. -/
+example : Engine.run (cfgW 2) parity (fun _ ts => ts) 4 countProg twoFacts = .ok [[.i64 2]] [("c", [[.i64 2]])] := by decide
+
+/-- a union of two projections over 5 facts, 3 workers: both heads are partitioned, 2-tuple
+    answer; the hypothesis of `C03` (the one-worker run answers) holds. -/
 def projProg : Program := [
   { hrel := "a", hargs := [.var "Y"], body := [.pos ⟨"e", [.var "X", .var "Y"]⟩] },
   { hrel := "a", hargs := [.var "X"], body := [.pos ⟨"e", [.var "X", .var "X"]⟩] },
   { hrel := "q", hargs := [.var "X"], body := [.pos ⟨"a", [.var "X"]⟩] } ]
 def projDb : DB := [("e", [[.i64 1, .i64 2], [.i64 3, .i64 2], [.i64 4, .i64 4], [.i64 5, .i64 2], [.i64 0, .i64 4]])]
 
-example : projProg.all simpleRule = true ∧ projProg.all (fun r => !r.hasAgg) = true ∧
-    (heads projProg).all (fun h => !selfRec projProg h) = true ∧
-    (heads projProg).all (fun h => parSafe (clausesOf projProg h)) = true ∧
+example : (heads projProg).all (fun h => parSafe (clausesOf projProg h)) = true ∧
+    (Engine.run (cfgW 1) Drv.C03.parity3 (fun _ ts => ts) 4 projProg projDb).toWire = "i64:2;i64:4" ∧
     (Engine.run (cfgW 3) Drv.C03.parity3 (fun _ ts => ts) 4 projProg projDb).toWire = "i64:2;i64:4" := by
   decide
 
